@@ -213,6 +213,8 @@ func runCase(p *Prop, c *CaseCtx) (res *CaseResult) {
 	}()
 	// every third case reaches its ledgers through the library's own register adapter (LedgerBaseStorage)
 	ledgerViaAPI = c.Case%3 == 1
+	// every fourth case the ledger keeps / hands out slices without copying them (Ledger.noCopy)
+	ledgerNoCopy = c.Case%4 == 2
 	res = p.Run(c)
 	return res
 }
